@@ -1258,7 +1258,15 @@ def g8(ctx, res):
         c = cmp_atom(e)
         if c and c[0] == fs and c[2] == "self._callable_register" and c[1] in ("in", "not in"):
             return ("REG", c[1] == "in")
+        got = (f"self._callable_register.get({fs})", f"self._callable_register.get({fs}, None)")
+        if c and c[0] in got and c[2] == "None" and c[1] in ("is", "is not"):
+            return ("REG", c[1] == "is not")  # a registered checker is a callable, never None
+        if norm(e) in got:
+            truthy.append(norm(e))  # the TRUTH VALUE of the registered object, not its presence
+            return ("REG", True)
         return None
+
+    truthy = []
 
     def classify(p):
         if p.exit != "return":
@@ -1268,11 +1276,16 @@ def g8(ctx, res):
         t = norm(p.exit_node.value)
         if t == "True":
             return "accept+warn" if warned else "accept"
-        if t == f"self._callable_register[{fs}]({v})":
+        if t in (f"self._callable_register[{fs}]({v})", f"self._callable_register.get({fs})({v})"):
             return "checker" + ("+warn" if warned else "")
         return "other:" + t
     table, opaque = decision_table(V(ctx, call).body, ["REG"], rec, classify)
     good8 = table == {(True,): {"checker"}, (False,): {"accept+warn"}}
+    if truthy:
+        res.judge(False, call, "registered checker consulted whatever its truth value",
+                  detail={"tested_for_truth": truthy},
+                  reason="the dispatcher tests the TRUTH VALUE of the registered object: a registered checker that is falsy "
+                         "(a callable with __len__ / __bool__) is treated as unregistered - every string accepted, with a warning")
     res.judge(True if good8 else (None if opaque else False), call,
               "unregistered -> warnings.warn(...) and True; registered -> register[name](value)",
               detail={"opaque": sorted(opaque), "table": {str(k): sorted(x) for k, x in table.items()}},
@@ -1290,8 +1303,19 @@ def g8(ctx, res):
     res.judge(True if (has("return _register_callable", outer)) else None, outer, "return _register_callable", reason="register(name) returns the storing decorator")
     fv = ctx.cls("Format").methods["_validate"]
     v = fv.params[1].name
-    res.judge(True if (has(f"if not format_checker(self.params['format'], {v}):\n    raise ValidationError", fv)) else None, fv,
-              "raise iff not format_checker(format, value)", reason="a string is rejected exactly when the checker answers false")
+    verdict_fv = True if (has(f"if not format_checker(self.params['format'], {v}):\n    raise ValidationError", fv)) else None
+    detail_fv = {}
+    if verdict_fv is None:
+        for x in walk_own(V(ctx, fv).body):
+            if isinstance(x, ast.Call) and dotted(x.func) == "format_checker" and x.args:
+                a0 = norm(x.args[0])
+                if a0 != "self.params['format']" and "self.params['format']" in a0:
+                    verdict_fv = False
+                    detail_fv = {"name_looked_up": a0}
+    res.judge(verdict_fv, fv,
+              "raise iff not format_checker(format, value)", detail=detail_fv,
+              reason="a string is rejected exactly when the checker registered under THE DECLARED NAME answers false "
+                     "(looking up a transformed name consults another checker, or none)")
     # built-ins are registered under their Draft-6 names
     regs = {}
     for f in ctx.prog.all_funcs():
@@ -1738,6 +1762,13 @@ def g11(ctx, res):
 
 
 
+def _iterates_python_names(ctx):
+    """Iterating a Properties object yields the keys of self.props (the Python names)."""
+    it = ctx.cls("Properties").methods.get("__iter__")
+    return it is not None and any(isinstance(x, ast.Return) and x.value is not None and norm(x.value) in ("iter(self.props)", "iter(self.props.keys())")
+                                  for x in walk_own(it.body))
+
+
 def props_call_model(ctx):
     """Semantic model of Properties.__call__: the mapping that is iterated is the input merged over placeholders
     for the declared properties.  -> dict (fields None where the shape is not recognised)."""
@@ -1778,7 +1809,7 @@ def props_call_model(ctx):
                     all_declared = True
                     if isinstance(b.key, ast.Attribute) and norm(b.key.value) == norm(b.target):
                         key_kind = {"source": "JS", "name": "PY"}.get(b.key.attr, "?")
-                elif it in ("self.props", "self.props.keys()", "self.props.items()"):
+                elif it in ("self.props", "self.props.keys()", "self.props.items()") or (it == "self" and _iterates_python_names(ctx)):
                     all_declared = True
                     key_kind = "PY" if norm(b.key) == norm(b.target if not isinstance(b.target, ast.Tuple) else b.target.elts[0]) else "?"
                 else:
